@@ -166,6 +166,9 @@ End D.
 Definition no_stale_tmp (c : cfgT) (f : fsT) (cmd : command) : bool :=
   match cmd with
   | CRebase a _ => negb (exists_ f (pathjoin [layer_path c a; D_LayerconfigFile] ++ tmp_suffix))
+  | CRename a _ =>
+      forallb (fun l' => negb ((beq (l_name l') a || beq (l_base l') a)
+                               && exists_ f (layerconfig_path l' ++ tmp_suffix))) (C02.layers_of c f)
   | _ => true
   end.
 
